@@ -307,7 +307,7 @@ func saslRawCases() []job {
 // transportAPIs is the sample of APIs sent through the Transport.  (CreateTopics
 // is left out: after a successful response the Transport waits for the topics
 // to show up in the metadata until the context ends.)
-var transportAPIs = []int16{18, 3, 10, 1, 0, 2, 11, 14, 9, 12, 20, 16, 22, 42, 17, 36}
+var transportAPIs = []int16{18, 3, 10, 1, 0, 2, 11, 14, 9, 12, 20, 16, 22, 42, 17, 36, 15, 8, 13}
 
 // TestTransport sends a sample of the frames of TestMutations through
 // kafka.Transport.RoundTrip, and the raw SASL response length through both
@@ -359,6 +359,12 @@ func TestTransport(t *testing.T) {
 				t.Fatalf("harness: corpus %s v%d: %v", a.Name, ver, err)
 			}
 			corpus = append(corpus, cf)
+			if variant == "rich" && clientCall(a.Key) != nil {
+				// the same API again with a body that answers what the units ask for (topic t, partition 0, group g, no error codes)
+				if cf, err := buildFrame(a, ver, "aligned", int(seed)*4+1); err == nil {
+					corpus = append(corpus, cf)
+				}
+			}
 		}
 	}
 
@@ -366,7 +372,7 @@ func TestTransport(t *testing.T) {
 	reachable := map[*corpusFrame]bool{}
 	byCase := map[string]*corpusFrame{}
 	for _, cf := range corpus {
-		byCase[fmt.Sprintf("%s/%d", cf.API.Name, cf.Ver)] = cf
+		byCase[fmt.Sprintf("%s/%d/%s", cf.API.Name, cf.Ver, cf.Variant)] = cf
 	}
 	jobs := make(chan job, 16)
 	go func() {
@@ -374,6 +380,10 @@ func TestTransport(t *testing.T) {
 		for _, cf := range corpus {
 			c := mutCase{API: cf.API.Name, Key: cf.API.Key, Version: cf.Ver, Entry: entryFor(cf.API, cf.Ver), Variant: cf.Variant, Seed: cf.Seed, Field: -1, Class: "unmutated", Splice: "inplace", Supply: "exact", FrameLen: len(cf.Frame)}
 			jobs <- job{c: c, stream: cf.Frame}
+			if c.Entry == "transport" && clientCall(c.Key) != nil {
+				c.Entry = "client"
+				jobs <- job{c: c, stream: cf.Frame}
+			}
 		}
 		if shard == 0 {
 			for _, j := range saslRawCases()[:1] {
@@ -412,7 +422,7 @@ func TestTransport(t *testing.T) {
 		if a.r.Alloc > maxAlloc {
 			maxAlloc = a.r.Alloc
 		}
-		if cf := byCase[fmt.Sprintf("%s/%d", c.API, c.Version)]; cf != nil && c.Key >= 0 {
+		if cf := byCase[fmt.Sprintf("%s/%d/%s", c.API, c.Version, c.Variant)]; cf != nil && c.Key >= 0 {
 			reachable[cf] = true
 		}
 		ev.Count("unmutated_frames", 1)
@@ -459,6 +469,10 @@ func TestTransport(t *testing.T) {
 							c := mutCase{API: cf.API.Name, Key: cf.API.Key, Version: cf.Ver, Entry: entryFor(cf.API, cf.Ver), Variant: cf.Variant, Seed: cf.Seed,
 								Field: fi, Path: f.Path, Kind: f.Kind, Off: f.Off, True: f.Value, Class: h.Class, Raw: h.Raw, Splice: sp, Supply: "exact", FrameLen: len(fr)}
 							jobs <- job{c: c, stream: fr}
+							if c.Entry == "transport" && clientCall(c.Key) != nil {
+								c.Entry = "client"
+								jobs <- job{c: c, stream: fr}
+							}
 						}
 					}
 				}
